@@ -1,8 +1,148 @@
-import Ufw.Model.RegTable
+/-
+C03 – block reads and range iteration follow the flat address-space model.
+Property theorems only; helper lemmas live in Ufw/Lemmas/RegFlat.lean.
+
+`areaOf t x` is the area address x is mapped to, `cell t x` the atom stored there (zero when the
+area cannot be read), `WfAreas t` says that every area has storage for its size and that areas do
+not overlap (what `register_init` establishes).
+-/
+import Ufw.Lemmas.RegFlat
+
 namespace Ufw.Props.C03
-open Ufw Ufw.Model.RegTable
-/-- an uninitialised table refuses typed access -/
-theorem uninitialised_refuses (cb : Nat → Value → Bool) (t : Table) (h : t.initialised = false) (idx : Nat) (v : Value) :
-    register_set cb t idx v = (⟨.uninitialised, idx⟩, t) ∧ (register_get t idx).1 = ⟨.uninitialised, idx⟩ := by
-  simp [register_set, register_setx, register_get, h]
+open Ufw Ufw.Model.RegTable Ufw.Lemmas.RegTable
+
+/-- `firstHole` finds the first unmapped address of the request, if there is one -/
+theorem firstHole_none_iff (t : Table) : ∀ (n addr : Nat),
+    firstHole t addr n = none ↔ ∀ k, k < n → (areaOf t (addr + k)).isSome = true := by
+  intro n
+  induction n with
+  | zero => intro addr; simp [firstHole]
+  | succ n ih =>
+    intro addr
+    simp only [firstHole]
+    cases h : areaOf t addr with
+    | none =>
+      simp only [Option.isNone_none, ↓reduceIte, reduceCtorEq, false_iff]
+      intro hall
+      have := hall 0 (by omega)
+      simp [h] at this
+    | some a =>
+      simp only [Option.isNone_some, Bool.false_eq_true, ↓reduceIte, ih (addr + 1)]
+      constructor
+      · intro hall k hk
+        cases k with
+        | zero => simp [h]
+        | succ k => have := hall k (by omega); rw [show addr + (k + 1) = addr + 1 + k by omega]; exact this
+      · intro hall k hk
+        have := hall (k + 1) (by omega)
+        rw [show addr + (k + 1) = addr + 1 + k by omega] at this; exact this
+
+theorem firstHole_some (t : Table) : ∀ (n addr x : Nat), firstHole t addr n = some x →
+    ∃ k, k < n ∧ x = addr + k ∧ areaOf t x = none ∧ ∀ j, j < k → (areaOf t (addr + j)).isSome = true := by
+  intro n
+  induction n with
+  | zero => intro addr x h; simp [firstHole] at h
+  | succ n ih =>
+    intro addr x h
+    simp only [firstHole] at h
+    cases hao : areaOf t addr with
+    | none =>
+      simp only [hao, Option.isNone_none, ↓reduceIte, Option.some.injEq] at h
+      exact ⟨0, by omega, by omega, by rw [← h]; exact hao, by intro j hj; omega⟩
+    | some a =>
+      simp only [hao, Option.isNone_some, Bool.false_eq_true, ↓reduceIte] at h
+      obtain ⟨k, hk, hx, hun, hbefore⟩ := ih (addr + 1) x h
+      refine ⟨k + 1, by omega, by omega, hun, ?_⟩
+      intro j hj
+      cases j with
+      | zero => simp [hao]
+      | succ j => have := hbefore j (by omega); rw [show addr + (j + 1) = addr + 1 + j by omega]; exact this
+
+/-- BLOCK READ on an initialised table: succeeds exactly when all n addresses are mapped and then
+    returns, for each address in order, the word stored there (zero for areas that are not
+    readable) - exactly n words; otherwise it reports the first unmapped address and delivers
+    nothing.  A zero-length read always succeeds. -/
+theorem block_read_spec (t : Table) (wf : WfAreas t) (hi : t.initialised = true) (addr n : Nat) :
+    register_block_read t addr n =
+      (match firstHole t addr n with
+       | none => (⟨.success, 0⟩, cellsFrom t addr n)
+       | some x => (⟨.noentry, x⟩, [])) := by
+  simp only [register_block_read, hi, Bool.not_true, Bool.false_eq_true, ↓reduceIte]
+  by_cases hn : n = 0
+  · subst hn; simp [firstHole, cellsFrom]
+  · simp only [hn, ↓reduceIte, register_block_touches_hole, touchesHole_eq t wf n addr n (Nat.le_refl n)]
+    cases hh : firstHole t addr n with
+    | none => simp only [blockReadLoop_eq t wf n addr n (Nat.le_refl n) hh]
+    | some x => rfl
+
+/-- the k-th word delivered is the content of address addr + k -/
+theorem cellsFrom_get (t : Table) : ∀ (n addr k : Nat), k < n →
+    (cellsFrom t addr n)[k]? = some ((cell t (addr + k)).getD 0) := by
+  intro n
+  induction n with
+  | zero => intro addr k h; omega
+  | succ n ih =>
+    intro addr k h
+    cases k with
+    | zero => simp [cellsFrom]
+    | succ k =>
+      simp only [cellsFrom, List.getElem?_cons_succ]
+      rw [ih (addr + 1) k (by omega)]
+      congr 3; omega
+
+/-- nothing but the caller's n words is produced -/
+theorem block_read_length (t : Table) (addr n : Nat) : (cellsFrom t addr n).length = n :=
+  cellsFrom_length t n addr
+
+theorem block_read_uninitialised (t : Table) (h : t.initialised = false) (addr n : Nat) :
+    register_block_read t addr n = (⟨.uninitialised, addr⟩, []) := by
+  simp [register_block_read, h]
+
+/-! ### range iteration -/
+
+/-- the entries visited from handle `h` on while they begin inside the range, with a callback
+    that keeps answering 0 -/
+private theorem go_zero (endA : Nat) : ∀ (es : List Entry) (h : Nat) (acc : List Nat),
+    register_foreach_in.go endA es h [] acc =
+      (⟨.success, 0⟩, acc ++ List.range' h (es.takeWhile fun e => decide (e.address ≤ endA)).length) := by
+  intro es
+  induction es with
+  | nil => intro h acc; simp [register_foreach_in.go]
+  | cons e rest ih =>
+    intro h acc
+    simp only [register_foreach_in.go, List.headD_nil, ↓reduceIte, List.tail_nil]
+    by_cases hle : e.address ≤ endA
+    · simp only [hle, ↓reduceIte, ih, List.takeWhile_cons, decide_true, List.length_cons]
+      simp [List.range'_succ, List.append_assoc]
+    · simp [hle, List.takeWhile_cons]
+
+/-- RANGE ITERATION with a callback that always returns 0: the callback is called for consecutive
+    handles in ascending order, starting at the first register that overlaps the range and going
+    on while registers begin inside it; on a table whose registers are ascending these are exactly
+    the registers overlapping the range -/
+theorem foreach_visits (t : Table) (hi : t.initialised = true) (addr off : Nat) (hoff : off ≠ 0)
+    (start : Nat)
+    (hs : t.entries.findIdx? (fun e => !(decide (e.address + e.type.size ≤ addr)) && !(decide (addr + off ≤ e.address))) = some start) :
+    register_foreach_in t addr off [] =
+      (⟨.success, 0⟩, List.range' start
+        ((t.entries.drop start).takeWhile fun e => decide (e.address ≤ addr + off - 1)).length) := by
+  have hne : ¬ t.entries.length = 0 := by
+    intro h0
+    have : t.entries = [] := List.length_eq_zero_iff.mp h0
+    rw [this] at hs; simp at hs
+  simp only [register_foreach_in, hi, Bool.not_true, Bool.false_eq_true, ↓reduceIte, hoff, hne, or_self, hs, go_zero]
+  simp
+
+/-- the callback's first non-zero answer ends the iteration: negative = failure at that register's
+    address, positive = success; nothing further is visited -/
+theorem foreach_stops (endA : Nat) (e : Entry) (rest : List Entry) (h : Nat) (r : Int) (script : List Int)
+    (acc : List Nat) (hle : e.address ≤ endA) (hr : r ≠ 0) :
+    register_foreach_in.go endA (e :: rest) h (r :: script) acc =
+      (if r < 0 then (⟨.failure, e.address⟩, acc ++ [h]) else (⟨.success, 0⟩, acc ++ [h])) := by
+  simp [register_foreach_in.go, hle, hr]
+
+theorem foreach_uninitialised (t : Table) (h : t.initialised = false) (addr off : Nat) (s : List Int) :
+    register_foreach_in t addr off s = (⟨.uninitialised, 0⟩, []) := by
+  simp [register_foreach_in, h]
+
 end Ufw.Props.C03
